@@ -50,6 +50,11 @@ fn payload(c: &WsCase) -> Vec<u8> {
 }
 
 fn run_session(c: &WsCase) -> Observed {
+    run_session_until(c, None)
+}
+
+/// `abandon_after`: the client stops reading after that many results and drops the connection (a reconnect, giving up)
+fn run_session_until(c: &WsCase, abandon_after: Option<usize>) -> Observed {
     let rt = tokio::runtime::Builder::new_current_thread().enable_all().build().expect("runtime");
     let c = c.clone();
     let out = guard(move || {
@@ -119,7 +124,7 @@ fn run_session(c: &WsCase) -> Observed {
                             let s = render(&r);
                             let stop = s == "Err(Disconnected)" || s == "Err(framing)" || s.starts_with("Err(transient") || s.starts_with("Err(other");
                             results.push(s);
-                            if stop || results.len() > 200_000 {
+                            if stop || results.len() > 200_000 || abandon_after.map(|k| results.len() >= k).unwrap_or(false) {
                                 break;
                             }
                         }
@@ -752,8 +757,45 @@ impl Part for WriteCalls {
     }
 }
 
+// ------------------------------------------------------------------ a second connection after an abandoned one
+/// The relay drops idle connections and applications reconnect: a first connection receives a large binary message, the
+/// client reads a few packets and drops it; a second connection made by the same thread must carry exactly its own stream.
+#[derive(Clone, Debug)]
+pub struct SecondCase {
+    pub first: WsCase,
+    pub read_before_dropping: usize,
+    pub second: WsCase,
+}
+
+pub struct SecondConnection;
+impl Part for SecondConnection {
+    type Case = SecondCase;
+    fn name(&self) -> &'static str {
+        "a-second-connection-after-an-abandoned-one"
+    }
+    fn check(&self, c: &SecondCase, ev: &mut Local) -> Result<(), Fail> {
+        let o = run_session_until(&c.first, Some(c.read_before_dropping.max(1)));
+        if let Some(e) = &o.error {
+            if e.starts_with("bind") || e.starts_with("connect") {
+                eprintln!("INCONCLUSIVE: loopback websocket unavailable: {e}");
+                std::process::exit(2);
+            }
+        }
+        // (what the abandoned connection delivered is judged by the other parts; here only what follows it)
+        judge(&c.second, ev).map_err(|f| Fail::new(f.sig.clone(), format!("[second connection of this thread; the first one received {} bytes in {} messages and was dropped after {} results] {}", payload(&c.first).len(), c.first.messages.len(), o.results.len(), f.msg)))?;
+        ev.class("second connection judged");
+        Ok(())
+    }
+    fn to_json(&self, c: &SecondCase) -> Value {
+        json!({"first": WsSessions.to_json(&c.first), "read_before_dropping": c.read_before_dropping, "second": WsSessions.to_json(&c.second)})
+    }
+    fn from_json(&self, v: &Value) -> Option<SecondCase> {
+        Some(SecondCase { first: WsSessions.from_json(v.get("first")?)?, read_before_dropping: v.get("read_before_dropping")?.as_u64()? as usize, second: WsSessions.from_json(v.get("second")?)? })
+    }
+}
+
 pub fn parts() -> Vec<Box<dyn DynPart>> {
-    vec![Box::new(WsSessions), Box::new(BackPressure), Box::new(WriteCalls)]
+    vec![Box::new(WsSessions), Box::new(SecondConnection), Box::new(BackPressure), Box::new(WriteCalls)]
 }
 
 pub fn run(run: &mut Run) {
@@ -779,6 +821,39 @@ pub fn run(run: &mut Run) {
     run.max_shrink_iters = 8;
     let n = run.budget(16, 300);
     run.prop(&WsSessions, ws_burst_strategy(), n);
+    // a second connection on the thread of an abandoned one: the first receives 1..20 KB in one to three messages and is dropped
+    // after a few packets
+    let first = (prop_oneof![Just(4usize), Just(20), Just(68)], prop_oneof![3 => 1_000usize..20_000, 2 => 6_000usize..8_200], proptest::collection::vec(any::<prop::sample::Index>(), 0..3)).prop_map(|(flen, total, cuts)| {
+        let n = total / flen;
+        let mut stream = Vec::with_capacity(n * flen);
+        for i in 0..n {
+            let mut f = vec![0u8; flen];
+            f[0] = flen as u8;
+            f[1] = if flen == 4 { 3 } else if flen == 20 { 2 } else { 13 };
+            f[2] = (i % 250 + 1) as u8;
+            if flen == 4 {
+                f[3] = 3;
+            } else if flen == 20 {
+                f[4..8].copy_from_slice(b"0.7A");
+                f[18] = 9;
+            } else {
+                for k in 4..67 {
+                    f[k] = b'a' + ((i + k) % 26) as u8;
+                }
+            }
+            stream.extend_from_slice(&f);
+        }
+        let mut at: Vec<usize> = cuts.iter().map(|ix| ix.index(stream.len() + 1)).collect();
+        at.push(0);
+        at.push(stream.len());
+        at.sort();
+        at.dedup();
+        let messages: Vec<Msg> = at.windows(2).map(|w| Msg::Binary(stream[w[0]..w[1]].to_vec())).collect();
+        WsCase { messages, writes: vec![], raw_read_sizes: None, raw_fill: false }
+    });
+    let strat = (first, 1usize..40, ws_strategy()).prop_map(|(first, read_before_dropping, second)| SecondCase { first, read_before_dropping, second });
+    let n = run.budget(120, 4_000);
+    run.prop(&SecondConnection, strat, n);
     // back-pressure: the harness owns the peer's schedule (it does not read until the writer stalls)
     run.max_shrink_iters = 12;
     let strat = (2_000usize..12_000, prop_oneof![Just(4096u32), Just(8192), Just(16384), Just(65536)], proptest::collection::vec(24usize..96, 1..5)).prop_map(|(packets, sndbuf, lens)| PressureCase { packets, sndbuf, lens });
